@@ -203,3 +203,21 @@ Example C21_example_inf :
   texec [] [] BADD [BG1 (be_digits 48 POW_2_382 ++ be_digits 48 0); BG1 (be_digits 48 POW_2_382 ++ be_digits 48 0)]
   = Ok (BG1 (be_digits 48 POW_2_382 ++ be_digits 48 0)).
 Proof. vm_compute. reflexivity. Qed.
+
+(* the Section hypotheses are jointly satisfiable (degenerate one-point curve): the theorems can be
+   instantiated, here the G1 laws on the encoding of the only point, infinity *)
+Example C21_hypotheses_satisfiable :
+  let u := fun (_ _ : unit) => tt in
+  let ex := bexec unit unit unit u (fun _ => tt) (fun _ _ => tt) tt u (fun _ => tt) (fun _ _ => tt) tt
+                  (fun _ => Inf1) (fun _ _ => tt) (fun _ => Inf2) (fun _ _ _ _ => tt) u u tt (fun _ _ => true) in
+  let inf := be_digits 48 POW_2_382 ++ be_digits 48 0 in
+  ex BADD [BG1 inf; BG1 inf] = Ok (BG1 inf).
+Proof.
+  intros u ex inf.
+  assert (E : enc1 unit (fun _ => Inf1) tt inf) by (vm_compute; reflexivity).
+  refine (proj1 (proj1 (C21_g1_group_laws unit unit unit u (fun _ => tt) (fun _ _ => tt) tt u (fun _ => tt) (fun _ _ => tt) tt
+            (fun _ => Inf1) (fun _ _ => tt) (fun _ => Inf2) (fun _ _ _ _ => tt) u u tt (fun _ _ => true)
+            _ _ _ _ _ _ _ _ _ tt tt tt inf inf inf inf 0 0 E E E E))).
+  all: try (intros; match goal with |- ?a = ?b => destruct a; destruct b; reflexivity end).
+  intros g x y H. discriminate H.
+Qed.
